@@ -477,7 +477,9 @@ def _group(tlist, cls, match,
     pidx, prev_ = None, None
     for idx, token in enumerate(list(tlist)):
         tidx = idx - tidx_offset
-        if tidx < 0:  # tidx shouldn't get negative
+        if pidx is not None and tidx < pidx:
+            # the token lies inside the group made last (tidx would point
+            # in front of that group, below zero if the group is the first)
             continue
 
         if token.is_whitespace:
